@@ -73,6 +73,14 @@ example : (match (Gen.CnfToken.varCount ⟨8⟩ (LR.init [49, 50, 56, 32] false)
     | _ => false) = true := by
   decide
 
+/-- `clause_lits::<L>`: the zero-terminated literal list with its range checks, the `set_mark` calls that
+place overflow / range errors on the offending numeral, and the line-break handling inside a clause.  The Rust
+function fills the out-parameter `lits`; the generated function returns it (`tools/unit_cnftoken.py`,
+`normalise_clause_lits`).  Unconditional: the generated loop runs with the model's fuel and the model's
+out-of-fuel value, so no progress argument is needed. -/
+theorem clause_lits_tied (l : Cnf.LitTy) (limit : Int) (hard : Bool) :
+    Gen.CnfToken.clauseLits l limit hard = Cnf.clauseLits l limit := clauseLits_eq l limit hard
+
 /-- Non-vacuity: the generated `non_terminating_linebreaks` on `"\n1"` (kept tiny: kernel evaluation of the
 fuelled loop is expensive). -/
 example : (match (Gen.CnfToken.nonTerminatingLinebreaks (LR.init [10, 49] false)).1 with
